@@ -311,6 +311,30 @@ def buffered_flush(ctx, rule='C11.buffered-flush'):
     return res
 
 
+def shared_state(ctx, rule='C11.shared-state'):
+    """besides the map (M) and the free list (P), whose update points are fixed by O4/O5/remap-on-success, a commit changes no state shared through DBInner
+    before it can still fail: a value recorded for other transactions (a cached size, a cached header, a counter) that is updated and then followed by an
+    error return describes a commit that did not happen"""
+    res = []
+    T = commit.commit_trace(ctx)
+    SH = [e for e in T.events('SH') if not e.get('summary')]
+    errs = {i for i, k in T.exit_kinds() if k == 'err'}
+    for e in SH:
+        n = T.nodes[e['node']]
+        after = T.reach(set(T.succ.get(e['node'], ())))
+        hit = sorted(after & errs)
+        if hit:
+            pth = T.path(set(T.succ.get(e['node'], ())), hit[0]) or []
+            res.append(bad(rule, '%s | DBInner.%s changed before the commit can still fail' % (n.fn.qual, e['field']),
+                           'the commit changes shared state DBInner.%s (%s at %s) and can afterwards still return an error: other transactions then see a value that '
+                           'describes a commit which did not take place' % (e['field'], e.get('how'), n.loc()), where=n.loc(), path=T.describe_path(pth)))
+        else:
+            res.append(ok(rule, 'shared state DBInner.%s is changed at %s only where the commit can no longer fail' % (e['field'], n.loc()), sites=1))
+    if not SH:
+        res.append(ok(rule, 'the commit trace (%d nodes) changes no shared state besides the map and the free list' % len(T.nodes), sites=1))
+    return res
+
+
 def run(ctx, tier):
     ob = commit.obligations(ctx)
     results = []
@@ -319,6 +343,7 @@ def run(ctx, tier):
     results += header_error_edge(ctx)
     results += remap_on_success(ctx)
     results += buffered_flush(ctx)
+    results += shared_state(ctx)
     results += ob['O1'] + ob['O2'] + ob['O3']
     import c02
     results += c02.alternate_rule(ctx, rule='C11.alternate')
